@@ -37,14 +37,15 @@ class Verdict:
     def add_violation(self, key, witness):
         self.violations.setdefault(key, []).append(witness)
 
-    def add_result(self, res, stage, exe=None, key_suffix=""):
+    def add_result(self, res, stage, exe=None, key_suffix="", key_fn=None):
         """Fold a runner.Result in; violations get `stage` recorded for replay."""
         for v in res.violations:
             w = dict(v)
             w["stage"] = stage
             if exe:
                 w["exe"] = os.path.basename(exe)
-            self.add_violation(v["key"] + key_suffix, w)
+            key = key_fn(v) if key_fn else v["key"]
+            self.add_violation(key + key_suffix, w)
         for d in res.diags:
             self.diagnostics.setdefault(d["key"], 0)
             self.diagnostics[d["key"]] += 1
